@@ -33,6 +33,7 @@ struct desc {
 	bool ops_unknown;    /* library type: operations not compared */
 };
 static std::map<int, desc> model;
+static vf_rng *grng;
 static int accepted, refused;
 
 struct TA { char x[3]; };
@@ -76,6 +77,19 @@ static void all_lookups()
 template <typename T>
 static void use_type(const char *tn, bool is_class, bool expect_room)
 {
+	static bool seen;   /* per C++ type */
+	if (!seen) {
+		seen = true;
+		/* a non-registering query before the first registering one must not spoil the type */
+		if (grng && vf_chance(grng, 1, 2)) {
+			vf_at("type_properties::id(false)");
+			int peek = mpt::type_properties<T>::id(false);
+			VF_CHECK(peek < 0, "cxx:type_properties:peek-has-id", "type_properties<%s>::id(false) = 0x%x before any registration", tn, peek);
+			vf_count("monitor:peek-before-first-registration", 1);
+			int first = mpt::type_properties<T>::id(true);
+			if (expect_room) VF_CHECK(first > 0, "cxx:type_properties:refused-after-peek", "type_properties<%s>::id(true) = %d after id(false), the generic range has room", tn, first);
+		}
+	}
 	vf_at("type_properties::id");
 	int first = mpt::type_properties<T>::id(true);
 	vf_count("type_properties::id", 1);
@@ -358,12 +372,58 @@ static int lib_query(int k, int path)
 		return mpt::type_properties<mpt::point<double> >::id(true);
 	}
 }
+/* non-registering query of library type k: the id if it is known to that access path, else <= 0; -1000: site has none */
+static int lib_peek(int k, int path)
+{
+	switch (k) {
+	case 0: return (path & 1) ? id_of(mpt::metatype::generic::pointer_traits(false)) : mpt::type_properties<mpt::metatype::generic *>::id(false);
+	case 1: return (path & 1) ? id_of(mpt::metatype::basic::pointer_traits(false)) : mpt::type_properties<mpt::metatype::basic *>::id(false);
+	case 2: return id_of(mpt::layout::pointer_traits(false));
+	case 3: return id_of(mpt::layout::graph::pointer_traits(false));
+	case 4:
+		switch (path % 3) {
+		case 0: return mpt::type_properties<mpt::metatype::value<double> *>::id(false);
+		case 1: return id_of(mpt::metatype::value<double>::pointer_traits(false));
+		default: {
+			/* a conversion of the holder asks for the id without registering */
+			mpt::metatype *m = mpt::metatype::create<double>(1.5);
+			float f = 0;
+			int r = m->convert('f', &f);
+			VF_CHECK(r >= 0 && f == 1.5f, "cxx:libtype:conversion", "metatype::value<double>(1.5)->convert('f') = %d, value %g", r, f);
+			m->unref();
+			return mpt::type_properties<mpt::metatype::value<double> *>::id(false);
+		}
+		}
+	case 5: return (path & 1) ? id_of(mpt::metatype::value<TB>::pointer_traits(false)) : mpt::type_properties<mpt::metatype::value<TB> *>::id(false);
+	case 6: return (path & 1) ? id_of(mpt::group::pointer_traits(false)) : mpt::type_properties<mpt::group *>::id(false);
+	case 7: return mpt::type_properties<mpt::io::interface *>::id(false);
+	default: return -1000;   /* point<T>: every call registers */
+	}
+}
+/* entries a range can hold (interface ids 0x89..0x8f are never handed out) */
+static bool has_room(int kind, int entries)
+{
+	return kind == 2 ? entries < 9 + 48 : entries < 1792;
+}
 static void op_lib(vf_rng *r, bool room)
 {
 	int k = (int) vf_below(r, NLIBS), path = (int) vf_below(r, 12);
 	libtype &l = libs[k];
 	int before[4], delta[4], other = 0;
 	for (int c = 1; c <= 3; c++) before[c] = count_entries(c);
+	if (vf_chance(r, 1, 3)) {
+		vf_at(l.site + 5);
+		int peek = lib_peek(k, path);
+		if (peek != -1000) {
+			for (int c = 1; c <= 3; c++) other += count_entries(c) - before[c];
+			vf_log("library type %s peek path %d -> %d", l.what, path, peek);
+			VF_CHECK(!other, "cxx:libtype:extra-registration", "non-registering query of %s (-> %d) added %d registry entries", l.what, peek, other);
+			if (peek > 0) VF_CHECK(l.id && peek == l.id, "cxx:libtype:id-not-stable", "non-registering query of %s gives 0x%x, id known so far: 0x%x", l.what, peek, l.id);
+			vf_count(l.id ? "monitor:peek-after-registration" : "monitor:peek-before-first-registration", 1);
+			vf_fp_u64(0x580000 + (uint64_t) k * 16 + (uint64_t) path);
+			other = 0;
+		}
+	}
 	vf_at(l.site + 5);
 	int id = lib_query(k, path);
 	for (int c = 1; c <= 3; c++) { delta[c] = count_entries(c) - before[c]; if (c != l.kind) other += delta[c]; }
@@ -375,6 +435,10 @@ static void op_lib(vf_rng *r, bool room)
 	if (id <= 0) {
 		VF_CHECK(!l.id, "cxx:libtype:id-not-stable", "id of %s was 0x%x, query %u gives %d", l.what, l.id, l.queries, id);
 		VF_CHECK(!delta[l.kind] && !other, "cxx:libtype:extra-registration", "query of %s that yields no id (%d) added registry entries: generic %d, interface %d, metatype %d", l.what, id, delta[1], delta[2], delta[3]);
+		/* every site of this table falls back to an anonymous registration: with room in the range it has to get an id,
+		 * whatever was asked before (a non-registering query must not spoil the type) */
+		VF_CHECK(!has_room(l.kind, before[l.kind]), "cxx:libtype:refused-with-room",
+		         "registering query %u of %s gives %d although its range holds only %d entries", l.queries, l.what, id, before[l.kind]);
 		refused++;
 		vf_count("refused:library-type", 1);
 		if (room) vf_count("observe:refused-below-capacity", 1);
@@ -429,6 +493,7 @@ void vf_case(uint64_t idx, vf_rng *r)
 	if (ran++) vf_inconclusive("c06_cxx needs batch=1 (one case per process)");
 	model.clear();
 	accepted = refused = 0;
+	grng = r;
 	vf_fp_u64(idx);
 	int mode = (int) (idx % 8);   /* 5: fill the generic range before the templates ask for ids; 6, 7: library types */
 	int nops = vf_range(r, 20, 200);
@@ -460,7 +525,7 @@ void vf_case(uint64_t idx, vf_rng *r)
 		}
 		if (idx % 32 == 22) {
 			while (op_add(r) >= 0) { }
-			metafull = true;
+			metafull = filled = true;
 			vf_count("exhausted:generic", 1);
 		}
 		for (int i = 0; i < 24; i++) op_lib(r, !metafull);
